@@ -204,7 +204,8 @@ def to_events(sc: dict, r: dict):
     last_done = None
     holding = {}         # queue -> message its loop took last
     surplus = {}         # message being given back -> queue
-    for e in r["events"]:
+    events = r["events"]
+    for n_ev, e in enumerate(events):
         k = e["kind"]
         if k == "enqueued":
             evs.append(f"(EvEnqueue {e['queue']} {e['jid']})")
@@ -225,13 +226,26 @@ def to_events(sc: dict, r: dict):
                 if q is None:
                     problems.append("processing task created outside a loop task")
                     continue
+                holding.pop(q, None)
                 evs.append(f"(EvSpawn {q})")
         elif k == "task_done" and e["qualname"] == "_Runner._process_with_event":
             last_done = proc_m.get(e["vid"])
         elif k == "task_cancel" and e["qualname"] == "_Runner._run_consumer":
             q = loop_q.get(e["vid"])
             if q is not None:
-                evs.append(f"(EvCancelLoop {q})")
+                m = holding.get(q)
+                if m is not None and m not in surplus:
+                    # the loop is cancelled with a message in hand: it gives it back itself (a reject of that message follows) -
+                    # unless the cancellation hit consume() after it had taken the message: then the loop never saw it
+                    gives_back = any(x["kind"] == "broker_done" and x.get("op") == "reject" and int(x["id"][1:]) == m for x in events[n_ev:])
+                    if gives_back:
+                        surplus[m] = q
+                        evs.append(f"(EvCancelLoop {q})")
+                    else:
+                        evs.append(f"(EvCancelLost {q})")
+                    holding.pop(q, None)
+                else:
+                    evs.append(f"(EvCancelLoop {q})")
         elif k == "consume":
             holding[int(e["queue"][1:])] = int(e["id"][1:])
             evs.append(f"(EvDeliver {int(e['queue'][1:])} {int(e['id'][1:])})")
@@ -256,7 +270,9 @@ def to_events(sc: dict, r: dict):
             evs.append(f"(EvUnpause {int(e['queue'][1:])})")
         elif k == "broker_done" and e["op"] == "reject" and int(e["id"][1:]) in surplus:
             # (the broker call runs in the middleware wrapper's child task: attributed through the message)
-            evs.append(f"(EvRejected {surplus.pop(int(e['id'][1:]))})")
+            q_ = surplus.pop(int(e['id'][1:]))
+            holding.pop(q_, None)
+            evs.append(f"(EvRejected {q_})")
         elif k == "event_set" and e["ev"] == lab["stop"]:
             evs.append("EvStop")
     return evs, problems
@@ -294,7 +310,8 @@ def to_shutdown_events(sc: dict, r: dict):
     finishing = False
     finish_emitted = False
     loops = set()
-    for e in r["events"]:
+    events = r["events"]
+    for n_ev, e in enumerate(events):
         k = e["kind"]
         if k == "task_create" and e["qualname"] == "_Runner._run_consumer":
             loops.add(e["vid"])
@@ -313,8 +330,12 @@ def to_shutdown_events(sc: dict, r: dict):
             evs.append(f"(SSpawn {m})")
         elif k == "task_cancel" and e["qualname"] == "_Runner._run_consumer":
             if loop_holds is not None:
-                evs.append(f"(SLoopCancelled {loop_holds})")
-                loop_holds = None
+                # since the fix recorded for C03 the cancelled loop gives the message back itself (SLoopGiveBack, at the effect
+                # of its reject); only when the cancellation hit consume() after the take does the message stay with nobody
+                gives_back = any(x["kind"] == "broker" and x.get("op") == "reject" and int(x["id"][1:]) == loop_holds for x in events[n_ev:])
+                if not gives_back:
+                    evs.append(f"(SLoopCancelled {loop_holds})")
+                    loop_holds = None
         elif k == "broker" and e["op"] in KIND:
             m = int(e["id"][1:])
             pending[m] = [e["op"], False]
